@@ -197,7 +197,15 @@ def run(ctx):
     # ArchSpec level
     some = built[: min(12, n)]
     specs = [ArchSpec(layout=L, float_constants=fc, int_constants=ic) for _, L in some
-             for fc in ({}, {"x": 1.0}, {"x": 2.0}) for ic in ({}, {"n": 1})]
+             for fc in ({}, {"x": 1.0}, {"x": 2.0}, {"x": 1.0, "y": 0.5}, {"y": 0.5, "x": 1.0}, {"y": 0.5, "x": 1.0, "z": -2.0}, {"z": -2.0, "x": 1.0, "y": 0.5})
+             for ic in ({}, {"n": 1}, {"n": 1, "m": 2, "k": 0}, {"k": 0, "m": 2, "n": 1})]
+    # tables filled after construction (the way gemini.logical.get_spec extends a base spec)
+    for _, L in some[:4]:
+        a = ArchSpec(layout=L, float_constants={"x": 1.0}, int_constants={"n": 1})
+        a.float_constants.update({"y": 0.5, "z": -2.0}); a.int_constants.update({"m": 2})
+        b = ArchSpec(layout=L, float_constants={"z": -2.0}, int_constants={"m": 2})
+        b.float_constants.update({"y": 0.5, "x": 1.0}); b.int_constants.update({"n": 1})
+        specs += [a, b]
     for s1, s2 in itertools.product(specs, repeat=2):
         ctx.evaluations += 1
         want = (s1.layout == s2.layout) and s1.float_constants == s2.float_constants and s1.int_constants == s2.int_constants
